@@ -113,4 +113,17 @@ structure LineOk (pre : List Line) (l : Line) : Prop where
 def WellFormed (ls : List Line) : Prop :=
   ∀ pre l post, ls = pre ++ l :: post → LineOk pre l
 
+/-! ### reading of the automaton's error classes on the trace -/
+
+/-- the clause of `LineOk pre l` that fails, per error class of the automaton (`Why`, Model.lean) -/
+def Violates : Why → List Line → Line → Prop
+  | .undeclaredType, pre, l => ∃ t ∈ usedTypes l, t ≠ 0 ∧ t ∉ definedTypes pre
+  | .undeclaredValue, pre, l => ∃ v ∈ usedValues l, v ∉ definedValues pre
+  | .undeclaredContainer, pre, l => ∃ c ∈ usedConts l, c ≠ 0 ∧ c ∉ createdConts pre
+  | .timeDecreases, pre, l => ∃ ts, lineTs l = some ts ∧ ∃ ts' ∈ timestamps pre, ts < ts'
+  | .useAfterDestroy, pre, l => ∃ c ∈ usedConts l, c ∈ destroyedConts pre
+  | .popEmpty, pre, l => ∃ ts t c, l = .popState ts t c ∧ depthOf pre (c, t) = 0
+  | .duplicate, pre, l => (∃ id, lineDefType l = some id ∧ (id = 0 ∨ id ∈ definedTypes pre)) ∨
+                          (∃ id, lineCreates l = some id ∧ (id = 0 ∨ id ∈ createdConts pre))
+
 end SgVerif.C47
